@@ -327,6 +327,26 @@ PROPS["C17"] = dict(
                          "cache_small": (60, 6000), "cache_large": (60, 6000), "cache_off": (60, 6000), "warm_runs_served_without_network": (1000, 100000), "http_requests_served": (8000, 800000)}),
 )
 
+PROPS["C19"] = dict(
+    level="fault_enumeration",
+    custom="crash",
+    technique="crash-point enumeration: the victim process is killed by strace (SIGKILL injected at the k-th file-system effect system call, which is not executed) and the directory is judged by a checker in a new process",
+    rule=("scenario = (operation in {shard flush, consolidation, LocalClient::put, DiskCache::put with eviction, DiskCache::initialize over a dirty directory}) x (prior history in {empty, populated, leftovers of an earlier crash}) "
+          "x seed x payload size; pass 1 traces an uninjected run and lists the effect calls (creating/truncating openat, write, pwrite, rename*, unlink*, mkdir*, rmdir, ftruncate, fsync, chmod/chown, link) issued by the operating thread "
+          "between two marker calls; pass 2 re-runs the victim from a fresh copy of the prepared directory once per listed call with SIGKILL injected at that call; the checker requires every file under a final name "
+          "(<hash>.mdb, default.<hash>, cache item name) to be complete and consistent with its name, every record retrievable before the operation to be retrievable, and re-open to succeed; "
+          "evaluation = one crash point that was actually cut and judged; distinct = (operation, history, size, cut system call, kind of path)"),
+    assumptions=["process-crash model: completed system calls persist, no torn page cache (as the property states)", "strace counts when=k per thread; the victims keep the operation's effects on one thread",
+                 "the code's random choices (temp names, eviction victim) change the concrete call list from run to run; each injected run is judged on its own trace"],
+    jobs=[Job("crash", engine="crash", workers=(1, 1), cases=(1, 1), **FULL)],
+    seeds=(4, 40),
+    max_points=(40, 400),
+    gates=dict(evaluations=(400, 5000), distinct=(60, 100),
+               counters={"crash_points_flush": (60, 800), "crash_points_consolidate": (40, 500), "crash_points_localput": (100, 1500), "crash_points_cacheput": (60, 800), "crash_points_cacheinit": (12, 150),
+                         "scenarios_with_every_crash_point": (40, 300), "cut_rename": (25, 300), "cut_openat": (40, 500), "cut_write": (150, 2000), "cut_unlink": (25, 300)}),
+    exhaustive_note="every effect call of the operating thread between the markers, per scenario (bounded by max_points per scenario)",
+)
+
 LEVEL_TEXT = {
     "C01": "Held on the explored histories: after every successful session each file was downloaded by a fresh downloader, whole and in ranges, and compared byte for byte with what was fed. Sampling over contents, partitions, limits and schedules; hostile generators (limits +-1, interleaved dedup, cross-session and cross-file references, global dedup).",
     "C02": "Held on the explored sessions: every stored xorb decoded under an independent parser with name == recomputed hash; every file record resolved to existing xorbs, in-range chunks and exact byte sums; file hash, per-segment verification hashes and SHA-256 equalled independent recomputation from the original bytes.",
@@ -336,6 +356,7 @@ LEVEL_TEXT = {
     "C13": "Held at every observed quiescent point: counters, tracked entries and directory contents agreed, and the capacity bound held after every put, including hundreds of steered schedules of simultaneous identical puts.",
     "C20": "Held on the explored histories: every recorded history satisfied the one-task-per-flight / every-caller-gets-that-outcome / new-flight-after-return rules, and no waiter was left pending under the bounded-progress probe. Schedules are sampled (5 runtime shapes, perturbation at hook points), not enumerated.",
     "C17": "Held on the explored plans: every reconstruction (both writers, all cache modes, cold and warm, ~8 byte ranges per plan) wrote exactly the expected slice and reported its length, with request completion order permuted by seeded server delays.",
+    "C19": "Crash-point enumeration: for each scenario every file-system effect call of the operation was cut once with SIGKILL and the surviving directory judged by a fresh process; no partial file was found under a final name, no pre-existing record was lost and every re-open succeeded.",
     "C14": "Held on the explored files and sessions: sizes and metrics conserved (new + deduped = total, withheld <= new, session = sum of files, upload byte counts = what the store calls carried), including runs where fragmentation prevention engaged.",
     "C15": "Held on the explored sessions: every xorb handed to the store respected the configured chunk/byte limits and wire-format widths with strictly increasing boundaries; no shard carried an unresolved xorb reference.",
     "C16": "Fault enumeration: every store call of each enumerated session was failed in turn; in every injected run some session call returned an error, and no shard was ever handed over before/without its xorbs. Exhaustive over single faults per session (bounded), sampled over multi-fault sets and schedules.",
